@@ -253,6 +253,37 @@ func runC12(c *rt.Ctx) {
 			}
 		}
 	}
+	// contention while time passes: every pair of commands on one key from two connections and a
+	// later reader, with "let a second of (virtual) time pass" as an explorer event at every decision
+	// at which the code under test has a timer armed (none is, on the present tree: the alternatives
+	// only exist once waiting for a lock - or anything else on this path - becomes bounded in time)
+	for _, lock := range []string{"single", "multi"} {
+		cfg := Cfg{Orca: "l1l2b", Lock: lock, Proto: "binary", L1H: "std", Conc: 0}
+		ops0 := concOps(true, "a", "b", "0")
+		ops1 := concOps(true, "a", "b", "1")
+		for i0, o0 := range ops0 {
+			for i1, o1 := range ops1 {
+				if !c.Thorough() && (i0+i1)%2 == 1 {
+					continue
+				}
+				item++
+				if !c.Mine(item) {
+					continue
+				}
+				if c.Expired() {
+					return
+				}
+				sc := ConcScenario{Harness: "C12", Cfg: cfg, Init: initStates("a")[2].Ops, Advances: 2, Threads: []ConcThread{
+					{Port: 0, Ops: []wire.Op{o0}}, {Port: 1, Ops: []wire.Op{o1}}, {Port: 0, Ops: []wire.Op{{Kind: "get", Key: "a"}}}}}
+				_, outs, complete := ExploreConc(c, sc, 2, 100000)
+				if !complete {
+					c.Cap("schedule cap for a contention-with-time program")
+				}
+				c.State(int64(len(outs)))
+				c.Distinct("time|" + lock + "|" + progTag(sc))
+			}
+		}
+	}
 	// concurrent multi-key gets over overlapping keys in opposite orders, with a writer
 	for _, lock := range []string{"single", "multi"} {
 		for _, conc := range []uint8{0, 1} {
